@@ -193,3 +193,80 @@ def const_eval(n):
     if n[0] == "proj" and n[2] == (".0",) and n[1][0] == "bin":
         return const_eval(n[1])
     return None
+
+
+# --------------------------------------------------------------------------- truth tables by CFG walk under atom assignments
+
+def common_dominator(body, blocks):
+    blocks = list(blocks)
+    if not blocks:
+        return None
+    if body._idom is None:
+        body._compute_idom()
+
+    def chain(b):
+        out = [b]
+        while body._idom.get(b, b) != b:
+            b = body._idom[b]
+            out.append(b)
+        return out
+    common = chain(blocks[0])
+    for b in blocks[1:]:
+        cb = set(chain(b))
+        common = [x for x in common if x in cb]
+    return common[0] if common else None
+
+
+def def_blocks(body, name):
+    out = []
+    for l, nm in body.names.items():
+        if nm == name:
+            for d in body.defs().get(l, []):
+                dest = d[3]["p"] if d[0] == "st" else d[2]["dest"]
+                if isinstance(dest, int):
+                    out.append((d[1], d))
+    return out
+
+
+def walk_decision(sc, start, atom_value, target_blocks, maxsteps=200):
+    """walk the CFG from `start`, resolving every switch through atom_value(node) -> switch value string;
+    `?` (Try::branch) switches take the Continue edge.  Returns the first block of target_blocks reached, or
+    ('stuck', node) if a switch cannot be resolved, or None."""
+    body = sc.body
+    b = start
+    first = True
+    for _ in range(maxsteps):
+        if b in target_blocks and not first:
+            return b
+        first = False
+        t = body.blocks[b]["term"]
+        k = t["t"]
+        if b in target_blocks and k != "switch":
+            return b
+        if k == "goto":
+            b = t["to"]
+            continue
+        if k in ("call", "drop", "assert"):
+            if "to" not in t:
+                return None
+            b = t["to"]
+            continue
+        if k == "switch":
+            n = strip(sc.operand(t["d"]))
+            # `?`: discriminant of a Try::branch result -> Continue (0)
+            if n[0] == "discr" and strip(n[1])[0] == "call" and short_callee(strip(n[1])[1]) == "branch":
+                v = "0"
+            else:
+                v = atom_value(n)
+            if v is None:
+                return ("stuck", n)
+            nxt = None
+            for val, tg in t["arms"]:
+                if val == v:
+                    nxt = tg
+            if nxt is None:
+                nxt = t["else"]
+            b = nxt
+            continue
+        return None
+    return None
